@@ -10,12 +10,13 @@ def harness_path(pid):
 
 
 def run(pid, tier, seed):
-  ev = common.Evidence(pid, "other", tier, seed)
   os.environ["VERIF_TIER"] = tier
   hp = harness_path(pid)
   common.setup_path()
   sys.path.insert(0, os.path.join(common.VERIF, "props"))
   mod = chunit.load_harness(hp)
+  # a harness without symbolic obligations is a pure solver-driven enumeration: level "exploration"
+  ev = common.Evidence(pid, getattr(mod, "LEVEL", "other"), tier, seed)
   obs = []
   for ob in mod.OBLIGATIONS:
     ob = dict(ob)
@@ -50,6 +51,14 @@ def run(pid, tier, seed):
     "functions_executed": common.code_ref(*getattr(mod, "FILES", [])),
     "exhaustive": ev.cov["discharged"] == n,
   })
+  ev.cov["samples"] += [{"obligation": r["obligation"], "mode": r["mode"], "runs": r["runs"], "exhaustive": r["exhaustive"], "first_cases": r["samples"]}
+                        for r in enum_rows][:12]
+  if ev.level == "exploration":
+    ev.cov["evaluations"] = sum(r["runs"] for r in enum_rows)
+    ev.cov["distinct_nontrivial"] = sum(r.get("nontrivial_runs", 0) for r in enum_rows)
+    ev.cov["rule"] = ("one evaluation = one cube of the obligation's finite argument domains (z3 AllSAT with cube blocking: every cube is distinct), run "
+                      "natively through the real functions; non-trivial = the arguments satisfy the obligation's precondition")
+    ev.cov["exhaustive"] = all(r["exhaustive"] for r in enum_rows)
   ev.assumptions = list(getattr(mod, "ASSUMPTIONS", [])) + [
     "floats use CrossHair's real-arithmetic model unless an obligation says otherwise (lib/ch_plugin.py)"]
   return common.report(pid, ev, violations, harness)
